@@ -10,6 +10,7 @@ from . import common as C
 from .ladder import (
     check_ladder,
     check_ladder_arguments,
+    check_prepare_reschedule,
     check_prepare_retry,
     is_plus_one_of,
 )
@@ -36,6 +37,7 @@ def run(ctx: Ctx) -> None:
     check_ladder(ctx, "R-C04-ORDER", rows=lambda s, b, d, c: (not s and b == "lt" and (d or c)) or s)
     check_ladder_arguments(ctx, "R-C04-STEP", lt, kinds=("retry",))
     check_prepare_retry(ctx, "R-C04-STEP")
+    check_prepare_reschedule(ctx, "R-C04-STEP")  # N+1 executions *per scheduling*: a new scheduling starts with a fresh counter
     message_retry(ctx)
     check_route(ctx, "R-C04-ROUTE", ops=("requeue",))
 
